@@ -45,6 +45,18 @@ CHECKS = {
    "Histories of add_geometry / add_node_set / add_element_set / add_variable / read-back calls (incl. calls that must raise) on one exporter and one real HDF5 file, compared with an in-memory model through the public importer after every step; for the faulted operation of a history ENOSPC is raised before, or EIO after, a seam call (h5py create_group / create_dataset / attribute create) - thorough tier: every seam call of that operation in both modes, each from a byte copy of the file - followed by the 'failed => absent, rest intact, counters consistent' comparison and an unfaulted retry that must succeed. Enumerates the fault points of the operation; samples histories and meshes.",
    "Trusted: models/vmap_ref.py; h5py/libhdf5 below the seam (no faults inside libhdf5, the roll-back's own __delitem__, or File.close; no process kill: C20 promises roll-back of a failed call, not crash durability).",
    "deterministic simulation with fault injection at the storage seam: seeded operation histories against a reference model, ENOSPC/EIO enumerated over every h5py create/attribute call of the faulted operation, retry-after-fault progress check", "DESIGN.md 4.7"),
+ "C04": check("C04", "exploration",
+   "Histories process_hcm_first(s), process_hcm_second(s) over seeded load sequences that swarm over every junction configuration (last sample a periodic reversal or not, signs of first/last, last between zero and first, leading/trailing plateaus, largest load only at the end, non-reversal last sample passing older reversals) with injected non-reversal samples incl. at the junction; the second-pass multiset of load pairs must equal the closed-loop rainflow count of the periodic reversal sequence (independent oracle), Memory-3 rows must be first-pass and symmetric, an interior-refinement twin must count the same per pass.",
+   "Trusted: models/periodic_rainflow.py. One genuine defect is an open known finding (F-C04-4, narrow signature); three were repaired by a fix: commit.",
+   "deterministic simulation: seeded pass histories over junction-configuration swarm with injected non-reversal samples, independent periodic-rainflow oracle, known-finding classifier", "DESIGN.md 4.4"),
+ "C05": check("C05", "exploration",
+   "Independent scalar implementation of the guideline HCM stepped over the reversals of [0]+s+s with the same law object through its scalar interface; every column of recorder.collective and the visited strain values (all/first/second run) must agree (K1); 1-5 proportional points in one batched replica must equal their solo replicas row by row, using the batch law's own look-up table per node (K2); the replica fed -s must mirror (K3).",
+   "Trusted: models/hcm_ref.py; the law's scalar interface. Benign junctions only (junctions are C04). Floats to 1e-9 of the quantity's scale.",
+   "deterministic simulation: reference-model oracle stepped pass by pass, lock-step solo replicas versus one batched replica, negated twin", "DESIGN.md 4.5"),
+ "C13": check("C13", "exploration",
+   "Histories of broadcasts over a pool of shared, aliased and re-entering pandas operands with a seeded uuid4 seam: after every step every pool object must be identical to its snapshot (values, index, level names incl. None, order, class), the returned pair must have identical index, every returned row must carry the original's value at the key restricted to the original's levels (NaN where absent) with no key lost or duplicated, and allowable-cycle calculations must equal the scalar formula.",
+   "Trusted: the key-wise dictionary model in worlds/operands.py; pandas. Weakest fit of the family: there is no fault to inject, only histories, aliasing and coincidences between operands.",
+   "deterministic simulation: seeded operation histories over an aliased operand pool with snapshot invariants after every step and a key-wise reference model", "DESIGN.md 4.6"),
 }
 
 def main():
